@@ -191,10 +191,60 @@ def drive_idft_overlay(rec, cases, ns):
     rec.data["ok"] = ok
 
 
+def drive_compaction(rec, quick):
+    """res == a with a_sl >= res_sl + N (a limb vector compacted in place, and the one-limb case with different nominal strides): output limb 0
+    is its own source limb, every other output limb overlaps no source limb that is still to be read and none partly, so the result must
+    equal the out-of-place result"""
+    from lib import Buf, FFT64, NTT120
+    rng = random.Random(rec.seed * 13 + 7)
+    L = Lib.get()
+    ok = 0
+    for n in ([4, 16, 64] if quick else [2, 4, 8, 16, 64, 256, 2048]):
+        for mk, mt, mask in (("fft64", FFT64, MASK_NONE), ("fft64-generic", FFT64, MASK_GENERIC), ("ntt120", NTT120, MASK_NONE)):
+            mod = L.module(n, mt, mask)
+            L.set_cpu_mask(MASK_NONE)
+            for op in ("rotate", "automorphism", "copy", "negate"):
+                for size, rs in ((1, 1), (2, 2), (3, 3), (3, 2), (2, 3)):
+                    for rsl, asl in ((n, 2 * n), (n + 1, 2 * n + 2), (n + 2, 2 * n + 2), (n, 3 * n)):      # a_sl >= res_sl + N: limb i of res never overlaps limb i of a partly
+                        words = max((size - 1) * asl, (rs - 1) * rsl) + n
+                        B = Buf(8 * words, fill=0x4D)
+                        src = [vecops.role_data(rec.seed + 9, "a", j, n, 50) for j in range(size)]
+                        for j in range(size):
+                            B.i64[j * asl:j * asl + n] = src[j]
+                        p = rng.choice([1, 3, n + 1, 2 * n - 1, 5, -7])
+                        label = "%s[%s] N=%d a_size=%d res_size=%d res==a res_sl=%d a_sl=%d p=%d" % (op, mk, n, size, rs, rsl, asl, p)
+                        if not rec.progress(label):
+                            continue
+                        vecops.call_op(L, mod, op, p, B, rs, rsl, B, size, asl, B, 0, n)
+                        rec.case(("compaction", op, mk, size, rs, rsl - n, asl - n))
+                        if not B.canaries_ok():
+                            rec.violation(label + ": write outside the vector", {})
+                            continue
+                        bad = None
+                        for i in range(rs):
+                            if i < size:
+                                e = src[i]
+                                e = vecops.ring_map("rot", n, p, e) if op == "rotate" else vecops.ring_map("aut", n, p | 1, e) if op == "automorphism" \
+                                    else (-e if op == "negate" else e)
+                            else:
+                                e = np.zeros(n, dtype=np.int64)
+                            if not np.array_equal(B.i64[i * rsl:i * rsl + n], e):
+                                bad = i
+                                break
+                        if bad is not None:
+                            rec.violation(label + ": output limb %d is not the operation applied to source limb %d as passed" % (bad, bad), {"limb": bad})
+                        else:
+                            ok += 1
+            L.delete_module(mod)
+    rec.data["ok"] = ok
+
+
 def run(chk, replay=None):
     quick = chk.tier == "quick"
     Lib.get()
-    chk.assumptions += ["aliasing means the same pointer and the same stride (the property's domain); partial overlaps are not generated"]
+    chk.assumptions += ["aliasing means the same pointer and the same stride (the property's domain); of the partial overlaps only the in-place compaction "
+                        "res == a with a_sl >= res_sl + N is driven (output limb 0 is its own source, the others overlap nothing still to be read and "
+                        "nothing partly, so the out-of-place result is well defined; the reference loops take that case limb by limb)"]
     # 1. model checking with the aliasing dimension
     for mod, cfg, role in (("LimbLoops", ("LimbLoops_quick.cfg" if quick else "LimbLoops_thorough.cfg"), "limb loops (5 aliasing patterns)"),
                            ("Normalize", "Normalize_small.cfg", "normalisation (alias)"),
@@ -240,6 +290,8 @@ def run(chk, replay=None):
                  timeout=1200)
     chk.traces += d["ok"] if d else 0
     chk.cov["idft_overlay_cases"] = len(ocases)
+    d = isolated(chk, "in-place compaction (res == a, a_sl >= res_sl + N)", drive_compaction, (quick,), timeout=900)
+    chk.traces += d["ok"] if d else 0
     r = run_tlc("Pointwise", "Pointwise_gen.cfg", workers=1, name="c13-pwgen")
     tlc_must_pass(r, "Pointwise gen")
     pcases = printed_json(r, "CASE")
